@@ -9,8 +9,8 @@
    (leaves: the closed formulas of the proximal factories);  [wfop n e] says that the
    parameters stored in e (g, element-valued sigma, constants) are elements of the space of
    x (they have n leaf arrays) -- the condition under which the library accepts them. *)
-From Coq Require Import Reals List Bool.
-From Verif Require Import Base.Num Base.Vec C10.Model C10.HeapLemmas C10.Leaves C10.Leaves2 C10.Leaves3 C10.Proofs C10.Values.
+From Coq Require Import QArith Reals List Bool.
+From Verif Require Import Base.Num Base.Vec C10.Model C10.HeapLemmas C10.Leaves C10.Leaves2 C10.Leaves3 C10.Proofs C10.Values C10.Corr C10.Refuted.
 Import ListNotations.
 
 (* T1 (the property).  For EVERY operator tree e over the modelled classes (every proximal
@@ -105,6 +105,15 @@ Proof. exact ccl1_value. Qed.
 Theorem prox_box_is_clamp : forall (lo hi : R) (v : list (list R)),
   pure_box (BSc lo) (BSc hi) v = e1 (fun u => Rmin (Rmax u lo) hi) v.
 Proof. exact box_value. Qed.
+
+(* The theorem is sensitive to exactly the defect the property is about: the transcription of
+   ProximalL1._call as it was BEFORE fix dd7df25 returns x - x = 0 on an aliased call
+   (Refuted.v; executed at Q). *)
+Theorem prox_l1_before_fix_dd7df25_refuted :
+  exists (lam : Q) (sigma : sval Q) (g : option (list (list Q))) (h : heap Q) (x : ref),
+    NoDup x /\ Forall (fun i => (i < next h)%nat) x /\
+    Check.Qssclose 0 0 (get (call_l1_before_fix lam sigma g x x h) x) (pure_l1 lam sigma g (get h x)) = false.
+Proof. exact old_prox_l1_aliased_refuted. Qed.
 
 (* non-vacuity: the hypotheses are met by a concrete heap and a tree of depth 4, and by a
    DiagonalOperator of two different proximals *)
